@@ -677,6 +677,13 @@ type task struct {
 
 	invokeType *noOutput // non-nil if there are no non-error results
 
+	// InvokeExpr is the argument of cff.Invoke unless it is the predeclared
+	// true or false. Its value is used when the code is generated, so the
+	// generated code would not mention it. A reference to it is generated
+	// instead, so that what it names (an imported package, most notably)
+	// stays used.
+	InvokeExpr ast.Expr
+
 	PosInfo *PosInfo // Used to pass information to uniquely identify a task.
 }
 
@@ -915,6 +922,9 @@ func (c *compiler) interpretTaskOptions(flow *flow, t *task, opts []ast.Expr) {
 			t.Instrument = c.compileInstrument(call)
 		case "Invoke":
 			t.invokeType = c.compileInvoke(flow, call)
+			if len(call.Args) == 1 && !isPredeclaredBool(c.info, call.Args[0]) {
+				t.InvokeExpr = call.Args[0]
+			}
 		}
 	}
 }
@@ -1038,6 +1048,16 @@ func (c *compiler) compileInstrumentName(name string) *instrument {
 			Value: strconv.Quote(name),
 		},
 	}
+}
+
+// isPredeclaredBool reports whether e is the predeclared true or false.
+func isPredeclaredBool(info *types.Info, e ast.Expr) bool {
+	id, ok := astutil.Unparen(e).(*ast.Ident)
+	if !ok {
+		return false
+	}
+	obj := info.Uses[id]
+	return obj != nil && obj.Parent() == types.Universe
 }
 
 func (c *compiler) compileInvoke(flow *flow, o *ast.CallExpr) *noOutput {
